@@ -225,7 +225,7 @@ func fileTail(path string, n int64) []byte {
 func openFifoWriter(d *daemon, path string) (*os.File, error) {
 	deadline := time.Now().Add(60 * time.Second)
 	for {
-		fd, err := syscall.Open(path, syscall.O_WRONLY|syscall.O_NONBLOCK, 0)
+		fd, err := syscall.Open(path, syscall.O_WRONLY|syscall.O_NONBLOCK|syscall.O_CLOEXEC, 0)
 		if err == nil {
 			// back to blocking mode for plain sequential writes
 			if err := syscall.SetNonblock(fd, false); err != nil {
